@@ -17,6 +17,9 @@
 //
 //	wg <retrieveTS> <hex|none>         WriteFavorites(content); mtime := 1000000100; GetFavorites(retrieveTS) -> <hex> <mtime> | nil <mtime>
 //	wgt <tree>                         build, Save, GetFavorites, WriteFavorites to a 2nd user, Load there -> as rt
+//	efbig save <limit> <oldhex|none> <tree> | efbig wf <limit> <oldhex|none> <newhex>
+//	                                   the save runs in a child whose writes fail with EFBIG past <limit> bytes
+//	                                   (RLIMIT_FSIZE, SIGXFSZ ignored) -> ok new | err old | <ret> torn:<hex> …
 //	conc <writers> <millis> <seed>     overlapping ptt.WriteFavorites calls for one user + a reader (P-hat only) -> whole | torn …
 //
 // <tree> := item*      item := B <attr> <bid> <lastvisit> <battr> | L <attr> <lid> | F <attr> <fid> <titlehex> [ item* ]
@@ -28,6 +31,7 @@ import (
 	"math"
 	"os"
 	"os/exec"
+	"os/signal"
 	"path/filepath"
 	"regexp"
 	"runtime"
@@ -35,6 +39,7 @@ import (
 	"strings"
 	"sync"
 	"sync/atomic"
+	"syscall"
 	"time"
 
 	"github.com/Ptt-official-app/go-pttbbs/ptt"
@@ -518,6 +523,8 @@ func childMain(args []string) {
 		if _, err := ptt.WriteFavorites(uid, hx.UnHex(args[2])); err != nil {
 			os.Exit(4)
 		}
+	case "efbig":
+		efbigChild(args[2:])
 	case "load":
 		// experiment: Load whatever is in .fav (used to probe very deep nesting by hand)
 		f, err := fav.Load(uid)
@@ -526,6 +533,95 @@ func childMain(args []string) {
 		os.Exit(3)
 	}
 	os.Exit(0)
+}
+
+// efbigChild: `c19 child <home> efbig <save|wf> <from> <to> <oldhex|none> <payload…>`. For every limit in
+// [from,to]: restore the old .fav (soft limit lifted), set the soft RLIMIT_FSIZE to the limit, run the save,
+// lift the limit, print "<limit> <ok|err|PANIC> <hex of .fav|none>".
+func efbigChild(args []string) {
+	signal.Ignore(syscall.SIGXFSZ)
+	from, _ := strconv.Atoi(args[1])
+	to, _ := strconv.Atoi(args[2])
+	dir := userDir(ptttype.BBSHOME, uid)
+	favP := filepath.Join(dir, fav.FAV)
+	var hard syscall.Rlimit
+	_ = syscall.Getrlimit(syscall.RLIMIT_FSIZE, &hard)
+	setSoft := func(v uint64) {
+		rl := syscall.Rlimit{Cur: v, Max: hard.Max}
+		if err := syscall.Setrlimit(syscall.RLIMIT_FSIZE, &rl); err != nil {
+			os.Exit(3)
+		}
+	}
+	var items []*spec
+	var content []byte
+	if args[0] == "save" {
+		var err error
+		if items, err = parseTree(args[4:]); err != nil {
+			os.Exit(3)
+		}
+	} else {
+		content = hx.UnHex(args[4])
+	}
+	for lim := from; lim <= to; lim++ {
+		setSoft(hard.Max)
+		es, _ := os.ReadDir(dir)
+		for _, e := range es {
+			_ = os.Remove(filepath.Join(dir, e.Name()))
+		}
+		if args[3] != "none" {
+			if err := os.WriteFile(favP, hx.UnHex(args[3]), 0o644); err != nil {
+				os.Exit(3)
+			}
+		}
+		var f *fav.FavRaw
+		if args[0] == "save" {
+			f = fav.NewFavRaw(nil)
+			if st := build(f, items); st != "" {
+				os.Exit(3)
+			}
+			f.MTime = math.MaxInt32
+		}
+		setSoft(uint64(lim))
+		res := hx.CallSync(func() string {
+			var err error
+			if args[0] == "save" {
+				_, err = f.Save(uid)
+			} else {
+				_, err = ptt.WriteFavorites(uid, content)
+			}
+			if err != nil {
+				return "err"
+			}
+			return "ok"
+		})
+		setSoft(hard.Max)
+		now := "none"
+		if b, err := os.ReadFile(favP); err == nil {
+			now = hx.Hex(b)
+		}
+		fmt.Printf("%d %s %s\n", lim, res, now)
+	}
+}
+
+var efbigCache = map[string]string{}
+
+// efbigRun runs the child for the limits [from,to] and fills efbigCache (key: the op line).
+func efbigRun(target string, from, to int, old string, payload []string) error {
+	args := append([]string{"child", env.Home, "efbig", target, strconv.Itoa(from), strconv.Itoa(to), old}, payload...)
+	cmd := exec.Command(selfExe, args...)
+	out, err := cmd.Output()
+	if err != nil {
+		return fmt.Errorf("efbig child: %v", err)
+	}
+	for _, l := range strings.Split(strings.TrimSpace(string(out)), "\n") {
+		ws := strings.Fields(l)
+		if len(ws) != 3 {
+			continue
+		}
+		key := strings.TrimSpace(fmt.Sprintf("efbig %s %s %s %s", target, ws[0], old, strings.Join(payload, " ")))
+		efbigCache[key] = ws[1] + " " + ws[2]
+	}
+	return nil
 }
 
 var selfExe string
@@ -829,6 +925,68 @@ func execOp(line string) (res result) {
 			res.label += ":killed-after-rename"
 		} else {
 			res.label += ":killed-old"
+		}
+	case "efbig":
+		if len(ws) < 4 || (ws[1] != "save" && ws[1] != "wf") {
+			return bad()
+		}
+		lim, err := num(ws[2], 1<<30)
+		if err != nil || !(isHex(ws[3]) || ws[3] == "none") {
+			return bad()
+		}
+		var newHex string
+		key := "torn:write-error:save"
+		if ws[1] == "save" {
+			items, err := parseTree(ws[5-1:])
+			if err != nil {
+				return bad()
+			}
+			h, ok := newImageOfSave(items)
+			if !ok {
+				return bad()
+			}
+			newHex = h
+		} else {
+			if len(ws) != 5 || !isHex(ws[4]) || ws[4] == "-" {
+				return bad()
+			}
+			newHex = ws[4]
+			key = "torn:write-error:writefavorites"
+		}
+		line := strings.Join(ws, " ")
+		got, ok := efbigCache[line]
+		if !ok {
+			if err := efbigRun(ws[1], int(lim), int(lim), ws[3], ws[4:]); err != nil {
+				res.notes = append(res.notes, err.Error())
+			}
+			got, ok = efbigCache[line]
+		}
+		delete(efbigCache, line)
+		if !ok {
+			res.out = "child-failed"
+			res.label = "efbig:child-failed"
+			res.fails = append(res.fails, [2]string{key, "the size-limited saving child did not answer"})
+			break
+		}
+		g := strings.Fields(got)
+		state := "torn:" + g[1]
+		switch g[1] {
+		case newHex:
+			state = "new"
+		case ws[3]:
+			state = "old"
+		}
+		res.out = g[0] + " " + state
+		res.label = "efbig:" + ws[1] + ":" + g[0] + "-" + strings.SplitN(state, ":", 2)[0]
+		// the property: the file is the old or the complete new version, and the save reports an error iff
+		// the new version did not land
+		switch {
+		case state != "new" && state != "old":
+			res.fails = append(res.fails, [2]string{key, fmt.Sprintf("writes failing with EFBIG past %d bytes: the save returned %s and .fav is %s, neither the old image %s nor the new image %s", lim, g[0], clip(g[1]), clip(ws[3]), clip(newHex))})
+		case (g[0] == "ok") != (state == "new") && ws[3] != newHex:
+			res.fails = append(res.fails, [2]string{key, fmt.Sprintf("writes failing with EFBIG past %d bytes: the save returned %s but .fav holds the %s version", lim, g[0], state)})
+		case g[0] == "PANIC":
+			res.fails = append(res.fails, [2]string{key, "the save panicked on a write error"})
 		}
 	case "conc":
 		if len(ws) != 4 {
@@ -1419,7 +1577,7 @@ func main() {
 	favPath = filepath.Join(userDir(env.Home, uid), fav.FAV)
 	selfExe, _ = os.Executable()
 
-	run.Rule = "rt: every tree of depth<=3 with <=2 entries per level and of depth<=2 with <=3 entries per level built through the API alone (smallest first), random larger trees (depth<=6, <=40 entries per level) with overwritten attr/lid/fid/title/lastvisit fields incl. entries without the FAV bit, the API limits (MAX_LINE, MAX_FOLDER, MAX_FAV, board ids) at and past each bound; load: headers with counts from {-32768,-1,0,1,32767}x{-128,-1,0,1,127}^2 x short bodies, every type byte, every truncation of valid files, single-byte corruptions, random bytes; mt: file older/equal/newer/absent; wg/wgt: the byte-level pair WriteFavorites/GetFavorites on contents of every length around 14342 and up to the largest legal file (57350 bytes) and on boundary-size trees (1024 entries: all folders / 10x100 boards / 64x15 boards), every rt additionally compares GetFavorites with the file; conc: 4-8 goroutines store images of 5 different lengths with ptt.WriteFavorites for one user while a reader reads and loads .fav in a loop; trace+crash: strace on a re-executed saving child, SIGKILL before the k-th write/openat/renameat for every k until the child survives. distinct = distinct op lines; nontrivial = reaches the code under test (not bad-op)"
+	run.Rule = "rt: every tree of depth<=3 with <=2 entries per level and of depth<=2 with <=3 entries per level built through the API alone (smallest first), random larger trees (depth<=6, <=40 entries per level) with overwritten attr/lid/fid/title/lastvisit fields incl. entries without the FAV bit, the API limits (MAX_LINE, MAX_FOLDER, MAX_FAV, board ids) at and past each bound; load: headers with counts from {-32768,-1,0,1,32767}x{-128,-1,0,1,127}^2 x short bodies, every type byte, every truncation of valid files, single-byte corruptions, random bytes; mt: file older/equal/newer/absent; wg/wgt: the byte-level pair WriteFavorites/GetFavorites on contents of every length around 14342 and up to the largest legal file (57350 bytes) and on boundary-size trees (1024 entries: all folders / 10x100 boards / 64x15 boards), every rt additionally compares GetFavorites with the file; efbig: the saving child runs with RLIMIT_FSIZE at EVERY byte offset of the new image (SIGXFSZ ignored: writes fail with EFBIG), trees whose tail holds only folders / titles / lines as well as board-terminated ones, for Save and WriteFavorites; conc: 4-8 goroutines store images of 5 different lengths with ptt.WriteFavorites for one user while a reader reads and loads .fav in a loop; trace+crash: strace on a re-executed saving child, SIGKILL before the k-th write/openat/renameat for every k until the child survives. distinct = distinct op lines; nontrivial = reaches the code under test (not bad-op)"
 
 	if run.Replay != "" {
 		for _, l := range hx.ReplayOps(run.Replay) {
